@@ -1210,6 +1210,72 @@ func (h *c14h) sequences() {
 	}
 }
 
+// longSequences: de-duplication over many distinct hosts (a live ARP scan of a large subnet): n distinct ids,
+// every one sighted in each of three passes, through the real UniqueLogger. The short sequences above
+// cannot see a seen-set that is bounded, rotated or reset once it has grown.
+func (h *c14h) longSequences() {
+	h.cur = "sequences/long: n distinct ids x 3 passes through UniqueLogger"
+	for _, n := range []int{300, 1500, 5000} {
+		for _, capa := range []int{0, 1000} {
+			if !h.next() {
+				continue
+			}
+			if h.c.Expired() {
+				h.stop = true
+				return
+			}
+			h.c.Eval(1)
+			h.c.Nontrivial(1)
+			mk := func(id, pos int) (scan.Result, c14obj) {
+				ip, mac, vendor := fmt.Sprintf("10.%d.%d.%d", id>>16&255, id>>8&255, id&255), fmt.Sprintf("02:00:00:%02x:%02x:%02x", pos>>16&255, pos>>8&255, pos&255), fmt.Sprintf("#%d", pos)
+				return &arp.ScanResult{IP: ip, MAC: mac, Vendor: vendor}, c14obj{{"ip", ip, false}, {"mac", mac, false}, {"vendor", vendor, false}}
+			}
+			var results []scan.Result
+			var firsts []c14obj
+			for pass := 0; pass < 3; pass++ {
+				for id := 0; id < n; id++ {
+					// the second pass runs backwards, the third forwards again
+					j := id
+					if pass == 1 {
+						j = n - 1 - id
+					}
+					r, spec := mk(j, len(results))
+					results = append(results, r)
+					if pass == 0 {
+						firsts = append(firsts, spec)
+					}
+				}
+			}
+			out, fault := h.emit(NewUniqueLogger(h.lg), results, capa)
+			key := fmt.Sprintf("seq:arp:unique:long:n=%d:cap=%d", n, capa)
+			if fault != "" {
+				h.c.Fail(key+":fault", fault, nil)
+				continue
+			}
+			lines, term := c14split(out)
+			bad := ""
+			if !term {
+				bad = "output does not end in a newline"
+			} else if len(lines) != n {
+				bad = fmt.Sprintf("%d distinct hosts were sighted (3 times each), %d records printed", n, len(lines))
+			} else {
+				for i, ln := range lines {
+					if cl, _, _ := c14judgeLine(firsts[i], ln); cl != "" {
+						bad = fmt.Sprintf("line %d is not the first sighting of host %d (%s): %q", i+1, i, cl, c14clip(ln))
+						break
+					}
+				}
+			}
+			if bad != "" {
+				h.c.Outcome("seq:FAIL:long")
+				h.c.Fail(key, fmt.Sprintf("UniqueLogger over %d distinct hosts x 3 passes (channel capacity %d): %s", n, capa, bad), map[string]any{"part": "c14", "kind": "long-seq", "n": n, "cap": capa})
+				continue
+			}
+			h.c.Outcome("seq:ok-long")
+		}
+	}
+}
+
 // ---------------------------------------------------------------------------------------------
 
 func verifC14(c *drv.Ctx) {
@@ -1231,6 +1297,7 @@ func verifC14(c *drv.Ctx) {
 	}
 	h.values()
 	h.sequences()
+	h.longSequences()
 	if c.Shard == 0 {
 		names := make([]string, 0, len(h.sweeps))
 		for n := range h.sweeps {
